@@ -166,7 +166,7 @@ pub fn c08() -> Check {
         thorough: (2500, 400, 250),
         nontrivial: |s| s.verify_unlinked >= 1 && s.reopens >= 1 && s.merges + s.gcs >= 1,
     })
-    .part(crate::crash::CrashEnum { name: "crash-in-cleanup", focus: crate::crash::Focus::CleanUp, quick: 8, thorough: 120, quick_points: 60 })
+    .part(crate::crash::CrashEnum { name: "crash-in-cleanup", focus: crate::crash::Focus::CleanUp, quick: 8, thorough: 50, quick_points: 60 })
 }
 
 pub fn c07() -> Check {
@@ -232,7 +232,7 @@ pub fn c02() -> Check {
     .assume("an operation that returned Ok counts as acknowledged; an injected failure that the store swallows is only a violation if an acknowledged write is then lost")
     .assume("recovered images that satisfy the R-D predicate (two live ssts overlapping in key range and timestamp range) are excluded and counted");
     c.watchdog_quick_s = 1500;
-    c.part(crate::crash::CrashEnum { name: "crash-enumeration", focus: crate::crash::Focus::All, quick: 10, thorough: 150, quick_points: 40 })
+    c.part(crate::crash::CrashEnum { name: "crash-enumeration", focus: crate::crash::Focus::All, quick: 10, thorough: 60, quick_points: 40 })
 }
 
 pub fn c06() -> Check {
